@@ -7,7 +7,8 @@ import re
 LEVEL = 'exploration'
 RULE = ('sequences of 2-6 tests in one layer; every test starts 0-3 threads '
         '(threading.Thread or _thread.start_new_thread; default name, own '
-        'name, or a name matching an --ignore-new-thread pattern); each '
+        'name, a name shared with other threads of the same and of other '
+        'tests, or a name matching an --ignore-new-thread pattern); each '
         'thread blocks on an event the world controls and is released (and '
         'waited for until it left sys._current_frames()) in the same test, '
         'at the start / middle / end of a later test, or never; includes the '
@@ -26,7 +27,7 @@ ASSUMPTIONS = ['a released thread is waited for until it is gone, so '
 FLOORS = {'skipped_tests_judged': 60, 'tests_judged': 1500, 'leaks_expected': 400,
           'leak_across_later_test': 200, 'ident_reuse_histories': 30,
           'ignored_threads': 100, 'dummy_threads': 200,
-          'renames_in_later_tests': 40}
+          'renames_in_later_tests': 40, 'leaks_sharing_a_name': 40}
 BATCH_TIMEOUT = 300
 
 HEADER = 'The following test left new threads behind:'
@@ -100,8 +101,17 @@ def cases(tier, seed):
                                                '_thread_late']),
                             'daemon': rng.random() < 0.6,
                             'name': rng.choice(['default', 'named',
-                                                'ignored', 'midign']),
+                                                'ignored', 'midign',
+                                                'shared', 'shared']),
                             'rel': rel})
+            if len(ths) >= 2 and rng.random() < 0.35:
+                # a worker pool: all of this test's threads carry one name
+                for th in ths:
+                    if th['api'] in ('threading', 'timer'):
+                        th['name'] = 'shared'
+                        if rng.random() < 0.7:
+                            th['rel'] = rng.choice([('never', None)] + [
+                                (j, 'body') for j in range(i + 1, L)])
             hist.append(ths)
         for i, ths in enumerate(hist):
             for th in ths:
@@ -158,6 +168,10 @@ def run_case(case):
                 name = 'wrk-%d-%d' % (i, k)
             elif th['name'] == 'ignored':
                 name = 'ign-%d-%d' % (i, k)
+            elif th['name'] == 'shared':
+                # thread names are labels, not identities: several threads
+                # (of one test and of different tests) carry the same name
+                name = 'wrk-pool'
             elif th['name'] == 'midign':
                 # contains an ignore pattern, but not at the start: the
                 # patterns are used in match mode
@@ -291,6 +305,8 @@ def run_case(case):
                 continue
             want.add(key)
         C('leaks_expected', len(want))
+        nm = [started[k]['name'] for k in want]
+        C('leaks_sharing_a_name', sum(1 for n in nm if nm.count(n) > 1))
         C('dummy_threads', sum(1 for k in want
                                if keys[k]['api'].startswith('_thread')))
         C('late_touch_in_this_test', sum(
